@@ -47,10 +47,21 @@ def check_C13(chk, tier, seed):
                         cells.append((tls, verify, srv, cert, addr))
     reps = 1 if tier == "quick" else 3
     cases, meta = [], []
+    # Each worker process runs several cells one after the other.  The configuration alone must decide, whatever a
+    # previous client or server in the same process was configured with: pass A alternates verify off/on (off first),
+    # pass B on/off (on first), so that every TLS client cell is preceded in its process by one with the other setting.
     for rep in range(reps):
-        for i, (tls, verify, srv, cert, addr) in enumerate(cells):
-            marker = "MARK%04dx%dq%d" % (i, rep, seed % 1000)
-            cases.append(f"TLS {tls} {verify} {srv} {cert} {addr} {marker}")
+        for flip in (0, 1):
+            order = sorted(range(len(cells)), key=lambda i: (cells[i][3], cells[i][4], cells[i][2], cells[i][0], cells[i][1] ^ flip))
+            for i in order:
+                tls, verify, srv, cert, addr = cells[i]
+                marker = "MARK%04dx%d%dq%d" % (i, rep, flip, seed % 1000)
+                cases.append(f"TLS {tls} {verify} {srv} {cert} {addr} {marker}")
+                meta.append((tls, verify, srv, cert, addr))
+    # a TLS server whose listen() is entered, left and entered again must still be a TLS server
+    for i, (tls, verify, srv, cert, addr) in enumerate(cells):
+        if srv == "tls" and addr == "host":
+            cases.append(f"TLS {tls} {verify} {srv} {cert} {addr} MARKR{i:04d}q{seed % 1000} relisten")
             meta.append((tls, verify, srv, cert, addr))
     impl = core.run_sharded([eng.harness, "codec"], eng.prelude, cases, shards=16, timeout=600, env=NET_ENV)
     mcases = [f"TLSCELL {t} {v} {s} {c} {a} x33383638" for (t, v, s, c, a) in meta]
@@ -79,7 +90,8 @@ def check_C13(chk, tier, seed):
             chk.sample(dict(case=c, impl=im, P=ok))
     # the name handed to the TLS library, for host/port strings (model only: the theorem C13_domain_is_host covers all)
     chk.exhaustive = True
-    chk.rule = ("the full finite table {client TLS on/off} x {verify on/off} x {server plain/TLS} x {certificate trusted+matching, trusted+wrong name, untrusted} x "
+    chk.rule = ("twice (verify off before on, and on before off, within each worker process) and once more for TLS servers whose listen() is entered, left and entered again: "
+                "the full finite table {client TLS on/off} x {verify on/off} x {server plain/TLS} x {certificate trusted+matching, trusted+wrong name, untrusted} x "
                 "{host name, IP literal} = 48 cells on real sockets with static certificates (tls/), trust injected with SSL_CERT_FILE, a recording TCP relay between "
                 "client and server searching for the per-cell marker in clear text; outcome classified {plain, tls, refused, noservice} and compared with the property's "
                 "table (written independently in the orchestrator) and with the Coq model's table")
@@ -87,7 +99,7 @@ def check_C13(chk, tier, seed):
                        "timeouts: 2.5 s to connect, 2.5 s for the answer, on loopback"]
 
 
-FAULTS = ["malformed", "oversized", "zero-length", "stall-midframe", "stall-setup", "garbage-setup", "reset", "reset-midframe", "handler-panic"]
+FAULTS = ["malformed", "oversized", "zero-length", "stall-midframe", "stall-setup", "garbage-setup", "reset", "reset-midframe", "handler-panic", "vanish-before-answer"]
 
 
 def check_C10(chk, tier, seed):
@@ -98,6 +110,11 @@ def check_C10(chk, tier, seed):
     for tls in (0, 1):
         for f in FAULTS:
             cases.append(f"NET {tls} 3 4 {hx(rng.below(1 << 32))} 1 {f}")
+    # many peers stuck in connection setup at once (a bounded pool of handshakes / accept slots must not run dry)
+    for tls in (0, 1):
+        for k in (5, 9):
+            cases.append(f"NET {tls} 3 4 {hx(rng.below(1 << 32))} {k} " + " ".join(["stall-setup"] * k))
+        cases.append(f"NET {tls} 4 6 {hx(rng.below(1 << 32))} 6 stall-setup garbage-setup stall-midframe stall-setup stall-midframe garbage-setup")
     n = 12 if tier == "quick" else 400
     for k in range(n):
         r = rng.fork(f"n{k}")
@@ -119,8 +136,8 @@ def check_C10(chk, tier, seed):
         if i % max(1, len(cases) // 6) == 0:
             chk.sample(dict(case=c, impl=im, P=ok))
     chk.rule = ("every fault kind (malformed frame, oversized frame, zero length, stall in mid-frame, stall before connection setup incl. a TLS handshake never started, "
-                "garbage at setup, reset, reset in mid-frame, handler panic) alone with 3 well-behaved raw-socket clients, for plain TCP and TLS listeners, plus random "
-                "combinations of 1-3 faulty peers with 1-4 good clients; half of the good clients are open before the faults are injected, half open afterwards; "
+                "garbage at setup, reset, reset in mid-frame, handler panic, a peer that resets the connection while the handler is still preparing its answer so that the write fails) alone with 3 well-behaved raw-socket clients, for plain TCP and TLS listeners, plus random "
+                "combinations of 1-3 faulty peers with 1-4 good clients; 5 and 9 simultaneous peers stuck in connection setup; half of the good clients are open before the faults are injected, half open afterwards; "
                 "multi-threaded runtime, real time; every answer compared octet for octet with the handler's answer to that client's own request (a misrouted answer "
                 "carries another client's Session-Id); deadline 3 s per step")
     chk.assumptions = ["partial, the most runtime-heavy property: tokio::spawn panic isolation, the scheduler, TCP and OpenSSL are assumptions of the Coq model (Model/Listener.v); "
